@@ -24,7 +24,7 @@ from ..flow import arg_origins, origins
 from ..mir import op_const, op_local, try_edges
 from ..util import POLL, agg_assigns, call_true_false_edges, polls, result_return_kinds, unreachable_without, where
 from . import crypto_tables as ct
-from .http_common import POST, SEND, post_structure
+from .http_common import POST, SEND, fresh_nonce_rule, post_structure
 
 LEVEL = "other"
 TECHNIQUE = ("provenance of the POST body/URL/nonce, must-pass-through of update_nonce on every exit of a received response, "
@@ -82,14 +82,9 @@ def check(ctx):
         ctx.require(R1, url_src.leaves == {"upvar:1"}, c.where(), "the builder's url argument is the same `url` parameter (%s)" % sorted(url_src.leaves), [POST, "builder-url"])
         R2 = ctx.rule("R2", "the nonce signed is the endpoint's current nonce; every received response refreshes it before any exit or retry; a missing nonce is fetched first")
         ctx.require(R2, (ENDPOINT, "nonce") in non_src.fields and non_src.has_leaf("upvar:0"), c.where(), "the builder's nonce argument is read from endpoint.nonce", [POST, "builder-nonce"])
-        # read inside the loop: the block reading endpoint.nonce is in the same SCC as the send
-        reads = [i for i in pb.live_blocks() for st in pb.blocks[i]["stmts"] if st["s"] == "assign" and st["rv"]["k"] in ("ref", "use")
-                 and any(isinstance(e, dict) and e.get("adt") == ENDPOINT and e.get("n") == "nonce" for e in (st["rv"].get("place") or (st["rv"].get("op", {}).get("copy") or st["rv"].get("op", {}).get("move") or {"p": []}))["p"])]
-        scc = set(pb.scc_of(sends[0].bb) or []) if sends else set()
-        in_loop = [i for i in reads if i in scc]
-        ctx.require(R2, bool(in_loop), c.where(), "endpoint.nonce is (re-)read inside the retry loop", [POST, "nonce-read-hoisted"])
     R2 = ctx.rule("R2", "the nonce signed is the endpoint's current nonce; every received response refreshes it before any exit or retry; a missing nonce is fetched first")
     ctx.floor(R2, "update_nonce call in http::post", len(upd), 1)
+    fresh_nonce_rule(ctx, R2)
     for s in sends:
         ok_e = [(t["bb"], tg) for t in try_edges(pb, [s.dest["l"]]) if not t["adt"].endswith("Poll") for tg in t["ok"]]
         ctx.require(R2, bool(ok_e), s.where(), "the result of send() is tested", [POST, "send-untested"])
@@ -213,6 +208,27 @@ def check(ctx):
                     if any(x.is_(ENC_JWK) for x in sl.calls):
                         good = True
             ctx.require(R4, good, e.where(), "the outer key-change payload is the inner JWS built with encode_jwk", ["update_account_key", "outer-payload"])
+    # the binding's MAC: header alg = the configured algorithm's text, HMAC with the hash of the SAME strength (HSnnn -> SHA-nnn),
+    # keyed with the key parameter, over "protected.payload"; non-HMAC algorithms are rejected — evaluated for every variant
+    from ..absint import Val, marker, run, success_model, variant
+    from .crypto_tables import ALG as JALG
+    mb = prog.must_body(ENC_MAC)
+    for v in prog.adt_variants(JALG):
+        r = run(mb, {1: Val("ref", marker("KEY")), 2: Val("ref", variant(JALG, v)), 3: Val("ref", marker("KID")), 4: Val("ref", marker("PAYLOAD")), 5: Val("ref", marker("URL"))},
+                success_model(mb, lambda cs_, a_: None), max_steps=20000)
+        macs = [(c_, [x.deref() for x in a_]) for c_, a_, res_ in r.calls if (c_.name or "").endswith("::hmac")]
+        if v.startswith("Hs"):
+            good = r.kind == "return" and len(macs) == 1 and macs[0][1][0].k == "variant" and macs[0][1][0].v == "Sha" + v[2:] and "KEY" in repr(macs[0][1][1])
+            ctx.require(R4, good, "%s:%s" % (mb.file, mb.line), "external account binding with %s is an HMAC-SHA-%s keyed with the binding key (found %s)"
+                        % (v.upper(), v[2:], [[repr(x) for x in m[1][:2]] for m in macs]), ["encode_kid_mac", "mac-hash", v])
+        else:
+            ret = r.ret.deref() if r.kind == "return" and r.ret is not None else None
+            is_err = ret is not None and ret.k == "adt" and ret.extra and ret.extra[1] == "Err"
+            ctx.require(R4, not macs and (is_err or r.kind != "return"), "%s:%s" % (mb.file, mb.line), "%s is not accepted as a MAC algorithm (run %s)" % (v, r.kind), ["encode_kid_mac", "mac-hash", v])
+    for c_ in mb.calls_to("*BaseHashFunction>::hmac", "acme_common::crypto::openssl_hash::<impl acme_common::crypto::BaseHashFunction>::hmac"):
+        d_ = arg_origins(c_, 2, through=True)
+        ctx.require(R4, all(d_.has_leaf("param:%d" % k_) for k_ in (2, 3, 4, 5)), c_.where(),
+                    "the MAC covers the protected header (alg, kid, url) and the payload", ["encode_kid_mac", "mac-input"])
     for c in mac_sites:
         ctx.require(R4, c.body.key == "acmed::acme_proto::structs::account::Account::new", c.where(), "encode_kid_mac in %s" % c.body.key, [c.body.key.split("::{closure")[0], "mac-elsewhere"])
         u = arg_origins(c, 4)
